@@ -530,6 +530,14 @@ func (r *NumberRenamer) AssignNamesByScope(nestedScopes map[uint32][]*js_ast.Sco
 		go func(sourceIndex uint32, scopes []*js_ast.Scope) {
 			var sorted []int
 			for _, scope := range scopes {
+				// The list contains every scope of the file, not just the ones
+				// directly inside the module scope. Nested scopes are reached
+				// by the recursive traversal, so only start from the outermost
+				// ones. Starting from every scope takes quadratic time and
+				// memory for deeply-nested code.
+				if scope.Parent != nil && scope.Parent.Parent != nil {
+					continue
+				}
 				r.assignNamesRecursive(scope, sourceIndex, &r.root, &sorted)
 			}
 			waitGroup.Done()
@@ -560,17 +568,22 @@ const (
 )
 
 func (s *numberScope) findNameUse(name string) nameUse {
+	use, _ := s.findNameUseAndCount(name)
+	return use
+}
+
+func (s *numberScope) findNameUseAndCount(name string) (nameUse, uint32) {
 	original := s
 	for {
-		if _, ok := s.nameCounts[name]; ok {
+		if count, ok := s.nameCounts[name]; ok {
 			if s == original {
-				return nameUsedInSameScope
+				return nameUsedInSameScope, count
 			}
-			return nameUsed
+			return nameUsed, count
 		}
 		s = s.parent
 		if s == nil {
-			return nameUnused
+			return nameUnused, 0
 		}
 	}
 }
@@ -587,19 +600,17 @@ func (s *numberScope) findUnusedName(name string, ns ast.SlotNamespace) string {
 		}
 	}
 
-	if use := s.findNameUse(name); use != nameUnused {
-		// If the name is already in use, generate a new name by appending a number
-		tries := uint32(1)
-		if use == nameUsedInSameScope {
-			// To avoid O(n^2) behavior, the number must start off being the number
-			// that we used last time there was a collision with this name. Otherwise
-			// if there are many collisions with the same name, each name collision
-			// would have to increment the counter past all previous name collisions
-			// which is a O(n^2) time algorithm. Only do this if this symbol comes
-			// from the same scope as the previous one since sibling scopes can reuse
-			// the same name without problems.
-			tries = s.nameCounts[name]
-		}
+	if use, count := s.findNameUseAndCount(name); use != nameUnused {
+		// If the name is already in use, generate a new name by appending a number.
+		// To avoid O(n^2) behavior, the number must start off being the number
+		// that we used last time there was a collision with this name. Otherwise
+		// if there are many collisions with the same name, each name collision
+		// would have to increment the counter past all previous name collisions
+		// which is a O(n^2) time algorithm. The count comes from the closest
+		// scope that uses this name. Sibling scopes can reuse the same name
+		// without problems but nested scopes can't, and every number up to the
+		// count of an enclosing scope is in use in that scope or further up.
+		tries := count
 		prefix := name
 
 		// Keep incrementing the number until the name is unused
@@ -610,10 +621,10 @@ func (s *numberScope) findUnusedName(name string, ns ast.SlotNamespace) string {
 			// Make sure this new name is unused
 			if s.findNameUse(name) == nameUnused {
 				// Store the count so we can start here next time instead of starting
-				// from 1. This means we avoid O(n^2) behavior.
-				if use == nameUsedInSameScope {
-					s.nameCounts[prefix] = tries
-				}
+				// from 1. This means we avoid O(n^2) behavior. This also stores the
+				// count in this scope if the collision was with an enclosing scope
+				// so that collisions in scopes nested inside this one start here.
+				s.nameCounts[prefix] = tries
 				break
 			}
 		}
